@@ -358,6 +358,11 @@ def exhaustive(tier):
     for n in (1, 2):
         for style in ("dir", "bare", "abs"):
             yield {"seed": "hdd-descriptor", "ops": [], "vmdk_parent_cycle": n, "hint": style}
+    # a header-extension area in which every 8 bytes are the header of an unknown extension of enormous length, with a backing
+    # file offset far behind the end of the file so that the lengths pass the bounds test
+    for ln in (1 << 28, 3 << 28, 1 << 31, 0xFFFFFFF8, 0xFFFFFFFF, 8, 0):
+        for bfo in (1 << 40, (1 << 28) + 4096, 0):
+            yield {"seed": "qcow2", "ops": [], "craft": "ext-flood", "ext_len": ln, "bfo": bfo}
     yield {"seed": "qcow2-bomb", "ops": []}
     yield {"seed": "vmdk-bomb", "ops": []}
     # memory must follow the request at hand, not the number of earlier requests: sweep over many large compressed grains
@@ -734,6 +739,15 @@ def check(spec) -> Outcome:
             out.cls("crafted")
         elif spec.get("craft") == "region-to-itself":
             mutated = apply_ops(data, [["set", 196608 + 32, 8, 196608, "little"], ["set", 196608 + 64, 8, 196608, "little"]])
+            out.cls("crafted")
+        elif spec.get("craft") == "ext-flood":
+            b_ = bytearray(data)
+            struct.pack_into(">QI", b_, 8, spec["bfo"], 16 if spec["bfo"] else 0)
+            hl = struct.unpack_from(">I", b_, 100)[0]
+            b_.extend(bytes(max(0, (128 << 10) - len(b_))))
+            room = (len(b_) - hl) // 8  # the whole rest of the file: a reader that advances by too little keeps finding headers
+            b_[hl : hl + 8 * room] = struct.pack(">II", 0x0BADF00D, spec["ext_len"]) * room
+            mutated = bytes(b_)
             out.cls("crafted")
         elif spec.get("craft") == "bomb-footer":
             mutated = vmdk_bomb_with_footer(spec["front_grain"])
